@@ -900,12 +900,84 @@ pub fn run_html(case: &HtmlCase, record_calls: bool, emulate_never_mirror: bool)
             };
             let (chunks, _keep) = make_chunks(&case.input, &case.schedule);
             let mut stats = RunStats::default();
+            let scripted = case.schedule.pauses.iter().any(|p| !p.remove.is_empty());
+            // what the script took out of the document stays referenced by the script (`t = table;
+            // t.remove()`): RcDom's parent links are weak, a node whose detached parent is dropped
+            // cannot be used any more, and that is not what is being tested here
+            let mut held: Vec<markup5ever_rcdom::Handle> = vec![];
+            let mut pause_ord = 0usize;
             for ch in chunks {
                 stats.chunks += 1;
                 stats.events += 1;
-                parser.process(ch);
+                if !scripted {
+                    parser.process(ch);
+                    continue;
+                }
+                // F11 on the repository's own sink: the embedder drives the public fields of `Parser`
+                // and at a script pause detaches one element of the RcDom tree
+                parser.input_buffer.push_back(ch);
+                let mut guard = 0usize;
+                loop {
+                    guard += 1;
+                    if guard > 100_000 {
+                        break;
+                    }
+                    match parser.tokenizer.feed(&parser.input_buffer) {
+                        TokenizerResult::Done => break,
+                        TokenizerResult::EncodingIndicator(_) => {
+                            stats.pauses_indicator += 1;
+                            pause_ord += 1;
+                        },
+                        TokenizerResult::Script(h) => {
+                            stats.pauses_script += 1;
+                            held.push(h);
+                            if let Some(act) = case.schedule.pauses.iter().find(|p| p.at == pause_ord) {
+                                for sel in &act.remove {
+                                    let dom = &parser.tokenizer.sink.sink;
+                                    let mut attached: Vec<markup5ever_rcdom::Handle> = vec![];
+                                    let mut stack = vec![dom.document.clone()];
+                                    while let Some(n) = stack.pop() {
+                                        for c in n.children.borrow().iter().rev() {
+                                            stack.push(c.clone());
+                                        }
+                                        if let markup5ever_rcdom::NodeData::Element { template_contents, .. } = &n.data {
+                                            attached.push(n.clone());
+                                            if let Some(t) = template_contents.borrow().as_ref() {
+                                                stack.push(t.clone());
+                                            }
+                                        }
+                                    }
+                                    if attached.is_empty() {
+                                        continue;
+                                    }
+                                    let special: Vec<markup5ever_rcdom::Handle> = attached
+                                        .iter()
+                                        .filter(|n| match &n.data {
+                                            markup5ever_rcdom::NodeData::Element { name, .. } => {
+                                                matches!(&*name.local, "head" | "form" | "template" | "table" | "select" | "html" | "body" | "tbody" | "tr" | "b" | "a" | "i" | "p" | "div" | "svg" | "math")
+                                            },
+                                            _ => false,
+                                        })
+                                        .cloned()
+                                        .collect();
+                                    let victim = if (*sel >> 16) & 1 == 1 && !special.is_empty() {
+                                        special[*sel as usize % special.len()].clone()
+                                    } else {
+                                        attached[*sel as usize % attached.len()].clone()
+                                    };
+                                    markup5ever::interface::TreeSink::remove_from_parent(dom, &victim);
+                                    held.push(victim);
+                                    stats.script_removals += 1;
+                                    stats.events += 1;
+                                }
+                            }
+                            pause_ord += 1;
+                        },
+                    }
+                }
             }
             let dom = parser.finish();
+            drop(held);
             // visiting every node once in document order and dropping the tree must not recurse
             let mut out: Vec<u8> = Vec::new();
             let sh: SerializableHandle = dom.document.clone().into();
@@ -979,7 +1051,11 @@ pub fn run_html(case: &HtmlCase, record_calls: bool, emulate_never_mirror: bool)
                 Some((nsname, local)) => {
                     let name = QualName::new(None, ns_from(nsname), LocalName::from(&**local));
                     let ctx = create_element(&sink, name, vec![]);
-                    let form = if *with_form {
+                    let form = if *with_form && nsname == "html" && local == "form" {
+                        // innerHTML on a form: the form owner handed to the fragment parser is the
+                        // context element itself (its nearest form ancestor-or-self)
+                        Some(ctx.clone())
+                    } else if *with_form {
                         Some(create_element(&sink, QualName::new(None, markup5ever::ns!(html), LocalName::from("form")), vec![]))
                     } else {
                         None
